@@ -81,7 +81,11 @@ def make_factory(spec, tier='quick', variant=0):
 
     def factory():
         p = OpProfile(
-            spec, ops=ops, op_budget=2 if (
+            # (the configured-hold-point entry keeps one command: whether a
+            # released hold point comes back from flow.cylc at a restart is
+            # not decided by the statement)
+            spec, ops=ops, op_budget=1 if spec['name'].endswith('-hpcfg2')
+            else 2 if (
                 tier == 'thorough' or spec['first'] == 'future') else 1,
             stops=('REQUEST_NOW_NOW',), max_restarts=1, stop_after_op=True,
             monitors=[Holds, PoolInvariants], jump=())
